@@ -18,7 +18,7 @@ def main():
     a = ap.parse_args()
     sys.path.insert(0, ROOT)
     if a.replay:
-        env = dict(os.environ, PYTHONPATH=ROOT + os.pathsep + "/repo")
+        env = dict(os.environ, PYTHONPATH=ROOT + os.pathsep + os.environ.get("VERIF_REPO", "/repo"))
         return subprocess.call([sys.executable, "-m", "vf.replay", a.replay], cwd=ROOT, env=env)
     from vf.runner import run_property
 
